@@ -178,6 +178,13 @@ INTEGER__dump(const asn_TYPE_descriptor_t *td, const INTEGER_t *st, asn_app_cons
 
 	/* Output in the long xx:yy:zz... format */
 	/* TODO: replace with generic algorithm (Knuth TAOCP Vol 2, 4.3.1) */
+	/* One text per value: no superfluous leading octets */
+	for(; buf < buf_end - 1; buf++) {
+		if((buf[0] == 0x00 && (buf[1] & 0x80) == 0)
+		|| (buf[0] == 0xff && (buf[1] & 0x80) != 0))
+			continue;
+		break;
+	}
 	for(p = scratch; buf < buf_end; buf++) {
 		const char * const h2c = "0123456789ABCDEF";
 		if((p - scratch) >= (ssize_t)(sizeof(scratch) - 4)) {
